@@ -322,6 +322,19 @@ def scrub(text):
     return re.sub(r'/tmp/[A-Za-z0-9_.-]+/', '<scratch>/', text)
 
 
+def stable_name(full):
+    """class name without the running numbers of the concretisation (violation keys are stable across seeds)."""
+    n = full[len(PKG) + 1:] if full.startswith(PKG + '.') else full
+    n = re.sub(r'\b([CEH])\d+', r'\1#', n)
+    return re.sub(r'(extra|Alpha|Beta|Gamma)\d+', r'\1#', n)
+
+
+def shape_class(s, reserved):
+    if s.get('big'):
+        return f"big/d{s['ctx']['depth']}{s['ctx']['file']}"
+    return '+'.join(sorted(set(fclass(dict(f, reftok=f['ref']), reserved) for f in s.get('fields', [])))) or s['kind']
+
+
 def error_class(text):
     lines = [ln for ln in text.strip().splitlines() if ln.strip()]
     last = lines[-1] if lines else ''
@@ -351,6 +364,12 @@ def main(chk, args):
     rnd = random.Random(chk.seed)
     reserved = set(reserved_names())
     pool = ThreadPoolExecutor(8)
+    import time as _time
+    t0 = _time.time()
+    timing = chk.extra.setdefault('timing_s', {})
+
+    def lap(name):
+        timing[name] = round(_time.time() - t0, 1)
 
     # 1. the specification satisfies the property within the bounds; the mutants are rejected -------------------
     jobs = [('Types model check (small)', pool.submit(tlc.run, 'Types', cfg_text('Types.small.cfg'), deadlock=False, timeout=1500,
@@ -387,6 +406,7 @@ def main(chk, args):
         cases_small, r3 = e_small.result()
         chk.add_tlc(r3, 'Types case emission (small scope, two fields)')
     chk.exhaustive = not quick
+    lap('cases emitted')
 
     # group the message cases by shape: one emitted class per shape, all its scripts run on it
     subjects, by_key = [], {}
@@ -422,6 +442,7 @@ def main(chk, args):
     for i, s in enumerate(subjects):
         s['sid'] = i + 1
         s.pop('seen', None)
+    by_sid = {s['sid']: s for s in subjects}
 
     # risky classes (known to break the import of the whole module) are tried in isolation first
     def risk(s):
@@ -484,7 +505,7 @@ def main(chk, args):
             if len(p) == 1:
                 s = p[0]
                 culprits += 1
-                cl = '+'.join(sorted(set(fclass(dict(f, reftok=f['ref']), reserved) for f in s.get('fields', [])))) or s['kind']
+                cl = shape_class(s, reserved)
                 chk.case(f'{kind}:{cl}')
                 chk.violation(f'{kind}:{error_class(text)}:{cl}', f'the package emitted for this single shape fails ({kind}): {last}',
                               dict(subject={k: v for k, v in s.items() if k != 'scripts'}, error=text[-1500:], api=build_api([s])[0]))
@@ -506,8 +527,10 @@ def main(chk, args):
             else:
                 todo += [(p[:h], ra), (p[h:], rb)]
 
+    lap('packs generated and driven')
     # 3. spec -> code comparison ----------------------------------------------------------------------------------
     all_traces = []
+    storms = {}
     nclasses = 0
     for p, r in results:
         info, out = r['info'], r['out']
@@ -559,7 +582,10 @@ def main(chk, args):
             dkey = 'decl:' + '+'.join(sorted(set(classes))) + f":d{s['ctx']['depth']}{s['ctx']['file']}"
             chk.case(dkey, nontrivial=bool(s['fields']))
             if ev0['ev'] != 'declare':
-                chk.violation('declare-error:' + '+'.join(sorted(set(classes))), f'{inf["full"]}: {ev0}', dict(subject=s, observed=ev0))
+                what = ev0.get('what', '?')
+                storms[what] = storms.get(what, 0) + 1
+                if storms[what] <= 3:      # a module whose descriptors cannot be built fails for every class alike
+                    chk.violation('declare-error:' + '+'.join(sorted(set(classes))), f'{inf["full"]}: {ev0}', dict(subject=s, observed=ev0))
                 continue
             diffs, first = diff_decl(exp, ev0['decl'])
             if diffs:
@@ -593,6 +619,10 @@ def main(chk, args):
                     chk.violation(f'roundtrip:{which}:' + ','.join(touched or ['empty']), f'{inf["full"]} ops={c["ops"]}: ' + '; '.join(bad),
                                   dict(subject={k: v for k, v in s.items() if k != 'scripts'}, case=c, trace=t['events']))
 
+    for what, n in sorted(storms.items()):
+        if n > 3:
+            chk.violation(f'declare-error:module:{error_class(what)}', f'{n} classes cannot be declared: {what}', dict(error=what, classes=n))
+
     # 4. code -> spec: batched trace validation ---------------------------------------------------------------------
     keep = ('kind', 'path', 'msgs', 'enums', 'fields', 'values', 'tops', 'events')
     batch = [{k: t[k] for k in keep} for t in all_traces]
@@ -614,20 +644,22 @@ def main(chk, args):
             tr = all_traces[ch[idx]]
             nxt = info.get('next_event')
             evname = nxt.get('ev') if isinstance(nxt, dict) else 'end'
-            if tr['kind'] == 'val':
-                fs = tr['fields']
+            sub = by_sid.get(tr['id']) if tr['kind'] == 'val' else None
+            if sub is not None and not sub.get('big'):
                 if isinstance(nxt, dict) and nxt.get('ev') == 'op':
-                    f = fs[nxt['o']['f'] - 1]
-                    cl = fclass(f, reserved) + ':' + nxt['o']['op']
-                elif len(fs) <= 6:
-                    cl = '+'.join(sorted(set(fclass(f, reserved) for f in fs)))
+                    f = sub['fields'][nxt['o']['f'] - 1]
+                    cl = fclass(dict(f, reftok=f['ref']), reserved) + ':' + nxt['o']['op']
                 else:
-                    cl = tr['full']
+                    cl = shape_class(sub, reserved)
+            elif sub is not None and isinstance(nxt, dict) and nxt.get('ev') == 'op':
+                f = tr['fields'][nxt['o']['f'] - 1]
+                cl = shape_class(sub, reserved) + ':' + fclass(dict(f, ref=''), reserved) + ':' + nxt['o']['op']
             else:
-                cl = tr['full']
+                cl = shape_class(sub, reserved) if sub is not None else stable_name(tr['full'])
             chk.violation(f'trace:{tr["kind"]}:{evname}:{cl}', f'TypesTrace rejected the recorded behaviour of {tr["full"]}: '
                           f'{json.dumps(info, default=str)[:1200]}', dict(trace=tr, info=info))
 
+    lap('traces validated')
     # the model-checking runs started at the beginning
     for label, j in jobs:
         chk.add_tlc(j.result(), label)
@@ -644,6 +676,7 @@ def main(chk, args):
         rejected_mutants[m] = r.violated
     chk.extra['spec_mutants_rejected'] = rejected_mutants
     pool.shutdown()
+    lap('model checking joined')
 
     chk.extra.update(classes_declared=nclasses, subjects=len(subjects), packs=len(results),
                      shapes=dict(one=len(cases_one), small=len(cases_small), sim=len(cases_sim)),
